@@ -166,9 +166,12 @@ Props/C13.vos Props/C13.vok Props/C13.required_vos: Props/C13.v Model/Term.vos M
 Proofs/Unify.vo Proofs/Unify.glob Proofs/Unify.v.beautified Proofs/Unify.required_vo: Proofs/Unify.v Model/Term.vo Model/Unify.vo
 Proofs/Unify.vio: Proofs/Unify.v Model/Term.vio Model/Unify.vio
 Proofs/Unify.vos Proofs/Unify.vok Proofs/Unify.required_vos: Proofs/Unify.v Model/Term.vos Model/Unify.vos
-Props/C02.vo Props/C02.glob Props/C02.v.beautified Props/C02.required_vo: Props/C02.v Model/Term.vo Model/Unify.vo Proofs/Unify.vo
-Props/C02.vio: Props/C02.v Model/Term.vio Model/Unify.vio Proofs/Unify.vio
-Props/C02.vos Props/C02.vok Props/C02.required_vos: Props/C02.v Model/Term.vos Model/Unify.vos Proofs/Unify.vos
+Proofs/UnifySound.vo Proofs/UnifySound.glob Proofs/UnifySound.v.beautified Proofs/UnifySound.required_vo: Proofs/UnifySound.v Model/Term.vo Model/Unify.vo Proofs/Unify.vo
+Proofs/UnifySound.vio: Proofs/UnifySound.v Model/Term.vio Model/Unify.vio Proofs/Unify.vio
+Proofs/UnifySound.vos Proofs/UnifySound.vok Proofs/UnifySound.required_vos: Proofs/UnifySound.v Model/Term.vos Model/Unify.vos Proofs/Unify.vos
+Props/C02.vo Props/C02.glob Props/C02.v.beautified Props/C02.required_vo: Props/C02.v Model/Term.vo Model/Unify.vo Proofs/Unify.vo Proofs/UnifySound.vo
+Props/C02.vio: Props/C02.v Model/Term.vio Model/Unify.vio Proofs/Unify.vio Proofs/UnifySound.vio
+Props/C02.vos Props/C02.vok Props/C02.required_vos: Props/C02.v Model/Term.vos Model/Unify.vos Proofs/Unify.vos Proofs/UnifySound.vos
 Proofs/Order.vo Proofs/Order.glob Proofs/Order.v.beautified Proofs/Order.required_vo: Proofs/Order.v Model/Term.vo Model/Unify.vo Model/Order.vo
 Proofs/Order.vio: Proofs/Order.v Model/Term.vio Model/Unify.vio Model/Order.vio
 Proofs/Order.vos Proofs/Order.vok Proofs/Order.required_vos: Proofs/Order.v Model/Term.vos Model/Unify.vos Model/Order.vos
@@ -199,9 +202,9 @@ Proofs/Loader.vos Proofs/Loader.vok Proofs/Loader.required_vos: Proofs/Loader.v 
 Props/C20.vo Props/C20.glob Props/C20.v.beautified Props/C20.required_vo: Props/C20.v Model/Loader.vo Proofs/Loader.vo
 Props/C20.vio: Props/C20.v Model/Loader.vio Proofs/Loader.vio
 Props/C20.vos Props/C20.vok Props/C20.required_vos: Props/C20.v Model/Loader.vos Proofs/Loader.vos
-Proofs/Rel.vo Proofs/Rel.glob Proofs/Rel.v.beautified Proofs/Rel.required_vo: Proofs/Rel.v Model/Term.vo Model/Unify.vo Model/Rel.vo Proofs/Unify.vo
-Proofs/Rel.vio: Proofs/Rel.v Model/Term.vio Model/Unify.vio Model/Rel.vio Proofs/Unify.vio
-Proofs/Rel.vos Proofs/Rel.vok Proofs/Rel.required_vos: Proofs/Rel.v Model/Term.vos Model/Unify.vos Model/Rel.vos Proofs/Unify.vos
+Proofs/Rel.vo Proofs/Rel.glob Proofs/Rel.v.beautified Proofs/Rel.required_vo: Proofs/Rel.v Model/Term.vo Model/Unify.vo Model/Rel.vo Proofs/Unify.vo Proofs/UnifySound.vo
+Proofs/Rel.vio: Proofs/Rel.v Model/Term.vio Model/Unify.vio Model/Rel.vio Proofs/Unify.vio Proofs/UnifySound.vio
+Proofs/Rel.vos Proofs/Rel.vok Proofs/Rel.required_vos: Proofs/Rel.v Model/Term.vos Model/Unify.vos Model/Rel.vos Proofs/Unify.vos Proofs/UnifySound.vos
 Props/C16.vo Props/C16.glob Props/C16.v.beautified Props/C16.required_vo: Props/C16.v Model/Term.vo Model/Unify.vo Model/Rel.vo Proofs/Unify.vo Proofs/Rel.vo
 Props/C16.vio: Props/C16.v Model/Term.vio Model/Unify.vio Model/Rel.vio Proofs/Unify.vio Proofs/Rel.vio
 Props/C16.vos Props/C16.vok Props/C16.required_vos: Props/C16.v Model/Term.vos Model/Unify.vos Model/Rel.vos Proofs/Unify.vos Proofs/Rel.vos
